@@ -9,6 +9,10 @@ from .sym import (mk, C, agg, mk_bin, mk_ite, mk_not, mk_and, mk_or, mk_cast, mk
                   UNDEF, OPTION_NONE, option_some, map_ite, Obligation, wrap)
 
 ORDERING = 'core::cmp::Ordering'
+OPS_BIN = {'add': 'Add', 'sub': 'Sub', 'mul': 'Mul', 'div': 'Div', 'rem': 'Rem', 'shl': 'Shl', 'shr': 'Shr',
+           'bitand': 'BitAnd', 'bitor': 'BitOr', 'bitxor': 'BitXor'}
+OPS_ASSIGN = {'add_assign': 'Add', 'sub_assign': 'Sub', 'mul_assign': 'Mul', 'shl_assign': 'Shl', 'shr_assign': 'Shr',
+              'bitand_assign': 'BitAnd', 'bitor_assign': 'BitOr', 'bitxor_assign': 'BitXor'}
 
 
 def ordering(ex, name):
@@ -260,6 +264,55 @@ def apply(ex, ctx, st, f, args, dest_ty, term):
         if ty is None:
             raise Uncertified("ordering operator on non-scalar")
         return mk_bin({'lt': 'Lt', 'le': 'Le', 'gt': 'Gt', 'ge': 'Ge'}[name], a, b, ty, 'bool'), st
+
+    # ---- operator traits on primitives (possibly through references) ----------------------
+    if dpath.startswith('core::ops::') and (path.startswith('core::ops::arith::') or path.startswith('core::ops::bit::') or
+                                             path.startswith('core::internal_macros::') or ' as core::ops::' in path) \
+            and name in OPS_BIN or (dpath.startswith('core::ops::') and name in OPS_ASSIGN and not f.get('resolved_local')):
+        if name in OPS_BIN:
+            a, b = args
+            while a[0] == 'ref':
+                a = ex.load(st, a)
+            while b[0] == 'ref':
+                b = ex.load(st, b)
+            ty = ty_of(a)
+            if ty not in INT_BITS and ty not in ('f32', 'f64'):
+                raise Uncertified("operator %s on %s" % (name, ty))
+            op = OPS_BIN[name]
+            if op in ('Add', 'Sub', 'Mul') and ty in INT_BITS:
+                if not (a[0] == 'c' and b[0] == 'c'):
+                    flag = mk('bin', op + 'Ovf', a, b, 'bool')
+                    ex.obligations.append(Obligation(key, line, 'Overflow:' + op, mk_not(flag), st.gstack, [a, b], tuple(ex.fn_stack)))
+            if op in ('Shl', 'Shr'):
+                bits = INT_BITS[ty]
+                okc = mk_bin('Lt', mk_cast(b, 'u32') if ty_of(b) != 'u32' else b, C(bits, 'u32'), 'u32', 'bool')
+                ex.obligations.append(Obligation(key, line, 'Overflow:' + op, okc, st.gstack, [a, b], tuple(ex.fn_stack)))
+            if op in ('Div', 'Rem'):
+                ex.obligations.append(Obligation(key, line, 'DivisionByZero', mk_bin('Ne', b, C(0, ty), ty, 'bool'), st.gstack, [a, b], tuple(ex.fn_stack)))
+            return mk_bin(op, a, b, ty, ty), st
+        else:
+            tgt, b = args
+            a = ex.load(st, tgt)
+            while b[0] == 'ref':
+                b = ex.load(st, b)
+            ty = ty_of(a)
+            op = OPS_ASSIGN[name]
+            ex.store(st, tgt, mk_bin(op, a, b, ty, ty))
+            return UNIT, st
+    if dpath in ('core::ops::Not::not', 'core::ops::Neg::neg') and not f.get('resolved_local'):
+        a = args[0]
+        while a[0] == 'ref':
+            a = ex.load(st, a)
+        return mk_un('Not' if name == 'not' else 'Neg', a, ty_of(a)), st
+    if path == 'core::array::<impl [T; N]>::map':
+        arr = args[0]
+        if arr[0] != 'agg':
+            raise Uncertified("array map over %s" % arr[0])
+        out = []
+        for e in arr[2]:
+            r, st = call_closure(ex, ctx, st, args[1], [e])
+            out.append(r)
+        return agg(('array',), out), st
 
     # ---- conversions -----------------------------------------------------------------------
     if dpath == 'core::convert::From::from' and path.startswith('core::convert::num::'):
